@@ -733,6 +733,20 @@ theorem crash_before_rename_shows_nothing :
     (∀ k, k < 4 → visibleAfterRestart (crashAfter k) = none) ∧
     (∀ k, k < 7 → 4 ≤ k → visibleAfterRestart (crashAfter k) = some ⟨true, true, true⟩) := by decide
 
+/-- **incremental_crash_all_or_nothing.** The incremental-file path: wherever the process dies
+during Close, after the restart (tmp directory removed) the WAL files are either still in the
+local source directory with nothing installed, or gone from the source with nothing installed
+(steps 1-5: the captured WAL data is lost, which is why the code exits hard and a full snapshot
+follows), or installed completely with their meta.json; never a partial snapshot directory. -/
+theorem incremental_crash_all_or_nothing (k : Nat) (hk : k < 8) :
+    (incCrashAfter k).installed = none ∨ (incCrashAfter k).installed = some true := by
+  revert k; decide
+
+/-- the window in which the captured WAL files exist nowhere the next start will look -/
+theorem incremental_crash_loses_source_between_move_and_rename :
+    ∀ k, k < 8 → (((incCrashAfter k).source = false ∧ (incCrashAfter k).installed = none) ↔ (1 ≤ k ∧ k ≤ 5)) := by
+  decide
+
 open RqModel.Gen.SinkClose in
 /-- **close_order_fact.** In the CURRENT source, after the sink-specific part (`sinkW.Close()`
 for a full snapshot; moving the WAL directory in for an incremental one) `Sink.Close` calls
